@@ -2,7 +2,7 @@
 # usage: seedrun.sh <Cxx> <n> [check ids...]   -- confirm a seeded change in its scratch worktree, then run checks against /repo with it applied
 set -u
 ID=$1; N=$2; shift 2
-WT=/tmp/wt_$ID; S=$WT/SEEDED/$N
+WT=${WTPREFIX:-/tmp/wt_}$ID; S=$WT/SEEDED/$N
 cd $WT || exit 2
 git checkout -q -- . ; git apply --check $S/patch.diff || { echo "PATCH DOES NOT APPLY"; exit 2; }
 git apply $S/patch.diff
